@@ -57,7 +57,7 @@ Definition run_conv (x : N) : list string :=
     line "tt_back" (sN (u32_of_tagtype (tagtype_of_u32 x)));
     line "tt_val" (sN (tagtype_val (tagtype_of_u32 x)));
     line "id_new" (sN (u32_of_id (id_new x)));
-    line "id_dbg" (sTagType (tagtype_of_id (id_new x)));
+    line "id_dbg" "VAL";   (* Debug of a TagTypeId: only whether it panics (texts are not compared) *)
     line "id_back" (sN (u32_of_id (id_of_u32 x)));
     line "tt_via_id" (sTagType (tagtype_of_id (id_of_u32 x)));
     line "id_via_tt" (sN (u32_of_id (id_of_tagtype (tagtype_of_u32 x))));
